@@ -144,7 +144,9 @@ fn submsg(kind: &str, prof: u64) -> SubMsg<Empty> {
         1 => (0, None, ReplyOn::Never, b""),
         2 => (7, Some(500), ReplyOn::Always, b"p"),
         3 => (9, Some(3), ReplyOn::Never, b"x"),
-        4 => (1 << 40, None, ReplyOn::Success, b"pay"),
+        4 => (0, Some(11), ReplyOn::Always, b"zero-id"),      // the id of the first reply handler of a contract, with trigger and payload
+        5 => (1 << 40, None, ReplyOn::Success, b"pay"),
+        6 => (0, None, ReplyOn::Error, b"e"),
         _ => (1, Some(1), ReplyOn::Error, b""),
     };
     SubMsg { id, msg: cosmos(kind), gas_limit: gas, reply_on: on, payload: Binary::from(payload.to_vec()) }
